@@ -496,6 +496,10 @@ Proof.
   assert (Hp : 0 < 2 ^ b) by (apply Z.pow_pos_nonneg; lia). nia.
 Qed.
 
+Lemma client_batch_value raw count b sfx i :
+  0 <= b -> add_logical (add_logical (differentiate raw b sfx) (- count + 1) b) i b = differentiate (raw - count + 1 + i) b sfx.
+Proof. intros Hb. unfold add_logical, differentiate. rewrite !shiftl_mul by assumption. ring. Qed.
+
 (* raw lexicographic order carries over to the returned (physical, differentiated logical) pairs *)
 Lemma raw_lt_diff p1 r1 p2 r2 b s1 s2 :
   0 <= b -> 0 <= s1 < 2 ^ b -> 0 <= s2 < 2 ^ b -> tlt (p1, r1) (p2, r2) ->
